@@ -26,6 +26,7 @@ for u in urls[:2500]:
     for amp in (True, False):
         for ir in (True, False):
             add(nc.get_normalized_hostname_op(u, amp, ir), nc.get_normalized_hostname_impl(u, amp, ir))
+    if not nc.in_model_alphabet(u): continue  # get_fingerprinted_hostname lower-cases the url (DESIGN §4)
     for sfx in (False, True):
         add(nc.get_fingerprinted_hostname_op(u, True, sfx), nc.get_fingerprinted_hostname_impl(u, True, sfx))
 out = [json.loads(l) for l in lib._driver([lib.jd(o) for o in ops])]
